@@ -941,7 +941,9 @@ def c18_block(rec, rng, kind, case):
     if kind == "events":
         blk = tdfEvents.TemporalEventsData()
         for lb in labels:
-            blk.events.append(tdfEvents.Event(lb, [1.0] if rng.random() < 0.5 else [], tdfEvents.EventsDataType.singleEvent))
+            # an instant, no instant, or an instant that is not a number (an event object is an item whatever it holds)
+            blk.events.append(tdfEvents.Event(lb, [1.0] if rng.random() < 0.5 else ([] if len(blk.events) % 2 else [float("nan")]),
+                                              tdfEvents.EventsDataType.singleEvent))
     elif kind == "emg":
         blk = tdfEMG.EMG(1000, n)
         def msk():   # fully present, with gaps, or wholly missing tracks
